@@ -97,9 +97,20 @@ def translate():
     ptree, _ = parse_file("textx/scoping/providers.py")
     call = find_func(ptree, "__call__", cls="ImportURI")
     order = []
-    body = _body(call)
+    body = []
+    for st in _body(call):
+        # a try block whose handlers only re-locate the error and re-raise it does not change what is consulted:
+        # its statements count as if written in place
+        if isinstance(st, ast.Try) and not st.orelse and not st.finalbody and st.handlers and all(
+                h.body and isinstance(h.body[-1], ast.Raise) and h.body[-1].exc is None
+                and not any(isinstance(n, (ast.Return, ast.Call)) and not (isinstance(n, ast.Call) and ast.unparse(n.func) in ("get_parser", "get_parser(obj).pos_to_linecol"))
+                            for x in h.body[:-1] for n in ast.walk(x))
+                for h in st.handlers):
+            body.extend(st.body)
+        else:
+            body.append(st)
     i = 0
-    allowed = {"from textx.model import ObjCrossRef, get_model", "assert type(obj_ref) is ObjCrossRef, type(obj_ref)",
+    allowed = {"from textx.model import ObjCrossRef, get_model", "from textx.scoping.tools import get_parser", "assert type(obj_ref) is ObjCrossRef, type(obj_ref)",
                "model = get_model(obj)", "model_repository = model._tx_model_repository"}
     while i < len(body):
         s = body[i]
